@@ -154,6 +154,12 @@ func replayRecording(rec *Recording, opts lab.NodeOpts, withCrashes bool, label 
 				if blk.Hash == nil {
 					return "", stats
 				}
+				if opts.InvCheckPeriod > 0 && strings.Contains(fmt.Sprint(pan), "invariant broken") {
+					// the crisis module halts a node that checks invariants when one is broken (its purpose); the
+					// node stops, it does not produce different results - whether an invariant can break is C15/C04/C10's subject
+					stats["nodeB-halted-by-broken-invariant"]++
+					return "", stats
+				}
 				return fmt.Sprintf("%s: end-block of block %d panicked: %v", label, bi, pan), stats
 			}
 			if crash == 3 {
@@ -262,6 +268,7 @@ func genNodeOpts(t *rapid.T) lab.NodeOpts {
 		InterBlockCache: uni(t, 2, "interBlockCache") == 1,
 		Noise:           pick(t, []int{0, 1, 2, 2}, "noise"),
 		RestartEvery:    oneIn(t, 4, "restartEvery"),
+		InvCheckPeriod:  uint(pick(t, []int{0, 0, 1, 3}, "invCheckPeriod")),
 	}
 }
 
@@ -306,6 +313,9 @@ func runC01(s *Scenario, opts lab.NodeOpts, ev *Evidence) []Finding {
 		ev.Count(fmt.Sprintf("c01.nodeB.noise.%d", opts.Noise), 1)
 		if opts.RestartEvery {
 			ev.Count("c01.nodeB.restart-after-every-commit", 1)
+		}
+		if opts.InvCheckPeriod > 0 {
+			ev.Count("c01.nodeB.checks-invariants", 1)
 		}
 		nt := w.Classes["c01.ok-custom-tx"] > 0 && w.Classes["c01.failed-tx"] > 0 && (stats["restarts-after-tx"] > 0 || opts.DB != "mem" || opts.Pruning != "default")
 		ev.Eval(s.Hash(), nt)
